@@ -151,18 +151,22 @@ class Obligations:
 def obligations(pid, modules, tier, extra_targets=()):
     """build the property's theorem modules and audit every theorem in them"""
     ob = Obligations()
-    props = [os.path.join(LEAN, *m.split(".")) + ".lean" for m in modules]
-    for p in props:
-        ob.theorems += theorems_of(p)
     audit_dir = os.path.join(LEAN, ".audit")
     os.makedirs(audit_dir, exist_ok=True)
-    audit = os.path.join(audit_dir, pid + ".lean")
-    with open(audit, "w") as f:
-        for m in modules:
+    # one audit file per module: two theorem modules of one property need not be importable together
+    # (helper lemma files of independent proof chains may reuse a name)
+    audits = []
+    for k, m in enumerate(modules):
+        ths = theorems_of(os.path.join(LEAN, *m.split(".")) + ".lean")
+        ob.theorems += ths
+        audit = os.path.join(audit_dir, pid + ("" if k == 0 else f"_{k}") + ".lean")
+        with open(audit, "w") as f:
             f.write(f"import {m}\n")
-        for t in ob.theorems:
-            f.write(f"#print axioms {t}\n")
-    ob.cmd = (f"cd lean && lake build {' '.join(modules)} && lake env lean .audit/{pid}.lean"
+            for t in ths:
+                f.write(f"#print axioms {t}\n")
+        audits.append(audit)
+    ob.cmd = (f"cd lean && lake build {' '.join(modules)} && " +
+              " && ".join(f"lake env lean {os.path.relpath(a, LEAN)}" for a in audits) +
               "  # + grep for sorry/admit/axiom/native_decide/bv_decide/implemented_by/unsafe")
     rc, out = lake(["build"] + list(modules) + list(extra_targets))
     if rc != 0:
@@ -172,10 +176,13 @@ def obligations(pid, modules, tier, extra_targets=()):
     hits = forbidden_hits(import_closure(modules))
     if hits:
         ob.failed.append(("lean tree", "forbidden construct: " + "; ".join(hits[:5])))
-    rc, out = lake(["env", "lean", os.path.relpath(audit, LEAN)])
-    if rc != 0:
-        ob.failed.append((audit, "audit file failed: " + out[-400:]))
-        return ob
+    out = ""
+    for audit in audits:
+        rc, o = lake(["env", "lean", os.path.relpath(audit, LEAN)])
+        if rc != 0:
+            ob.failed.append((audit, "audit file failed: " + o[-400:]))
+            return ob
+        out += "\n" + o
     flat = re.sub(r"\s+", " ", out)
     for t in ob.theorems:
         m = re.search(r"'" + re.escape(t) + r"' (does not depend on any axioms|depends on axioms: \[([^\]]*)\])", flat)
